@@ -35,6 +35,29 @@ ASSUMPTIONS = [
 SCRATCH_BASE = '/dev/shm' if os.path.isdir('/dev/shm') else tempfile.gettempdir()
 
 
+_swept = [False]
+
+
+def _sweep_stale():
+    """Scratch directories of workers that were killed (budget exceeded) would stay behind: remove those older than an
+    hour, once per process, best effort."""
+    if _swept[0]:
+        return
+    _swept[0] = True
+    import time
+    try:
+        for nm in os.listdir(SCRATCH_BASE):
+            if nm.startswith('zverif-c13-'):
+                p_ = os.path.join(SCRATCH_BASE, nm)
+                try:
+                    if time.time() - os.path.getmtime(p_) > 3600:
+                        shutil.rmtree(p_, ignore_errors=True)
+                except OSError:
+                    pass
+    except OSError:
+        pass
+
+
 class BlobWorld:
     def __init__(self, kind):
         import transaction
@@ -42,6 +65,7 @@ class BlobWorld:
         import ZODB.blob
         import ZODB.FileStorage
         import ZODB.MappingStorage
+        _sweep_stale()
         self.dir = tempfile.mkdtemp(prefix='zverif-c13-', dir=SCRATCH_BASE)
         # blobs that do not belong to a connection yet create their files in the default temp directory
         self._old_tempdir = tempfile.tempdir
